@@ -71,8 +71,12 @@ def gen(tier, seed, chunk, nch):
             # the parser has been used before: accepted vectors, vectors rejected half-way
             case["earlier"] = [[rng.choice(benign) if benign and rng.random() < 0.6 else rng.choice(pool)[1]
                                 for _ in range(rng.randint(0, 4))] for _ in range(rng.randint(1, 2))]
-        if rng.random() < 0.15:
-            case["mode"] = "V"   # parse(std::vector<user_input>) instead of parse(argc, argv)
+        if rng.random() < 0.2:
+            # parse(std::vector<user_input>) instead of parse(argc, argv); W: values built with user_input::verbatim()
+            case["mode"] = rng.choice(["V", "V", "W"])
+        if rng.random() < 0.1:
+            d = dict(d, moved=rng.choice(["MOVE", "MOVEA"]))
+            case["decl"] = d
         cases.append(case)
     return cases
 
